@@ -56,10 +56,12 @@ var (
 //     reads a header by number from this window — pruning it would break
 //     the syscall.
 //
-//  2. The hash → number mapping for endExclusive-1. Resolving
-//     StateAtBlockHash(endExclusive.parentHash) needs this single mapping;
-//     it is cleaned up by the next PruneUpto call's oldestKept-1 sweep, so
-//     between calls exactly one extra mapping survives below endExclusive.
+//  2. The hash → number mapping for oldestKept-1 (= endExclusive-1 on full
+//     completion). Resolving StateAtBlockHash(oldestKept.parentHash) needs
+//     this single mapping; it is deleted when the next block is pruned, so
+//     exactly one extra mapping survives below the oldest kept block — after
+//     a completed call, after a cancelled one, and in the database left by
+//     every intermediate batch.
 //
 // ctx cancellation aborts the per-block loop after the current iteration;
 // any work already queued plus the range delete for the partial window is
@@ -145,14 +147,18 @@ func PruneBlockDataUpto(w db.KeyValueRangeDeleter, rangeEndExclusive uint64) err
 // pruneHashKeyedUpto deletes the hash-keyed indexes for every block in
 // [start, endExclusive) and, in the same batches, the number-keyed block
 // data (see [PruneBlockDataUpto]), iterating per-block and rotating the batch
-// whenever its size exceeds targetBatchByteSize. Also point-deletes the
-// carve-out left at start-1 by the previous PruneUpto call. Owns its
-// own batch lifecycle and writes the final batch before returning.
+// whenever its size exceeds targetBatchByteSize. Owns its own batch
+// lifecycle and writes the final batch before returning.
 //
 // Indexes touched:
 //
-//   - BlockHeaderNumberByHash (skipping endExclusive-1, the carve-out
-//     for StateAtBlockHash(endExclusive.parentHash))
+//   - BlockHeaderNumberByHash, one block behind the sweep: the mapping of
+//     block N-1 is deleted when block N is pruned, so the mapping of the
+//     block just below the oldest kept one (the carve-out resolved by
+//     StateAtBlockHash(oldestKept.parentHash)) always survives, whether the
+//     loop completes, is cancelled, or the process dies between two
+//     batches. The first iteration thereby removes the carve-out left at
+//     start-1 by the previous PruneUpto call.
 //   - TransactionBlockNumbersAndIndicesByHash
 //   - L1HandlerTxnHashByMsgHash (only for L1 handler txs)
 //   - ContractStorageHistory / ContractNonceHistory / ContractClassHashHistory
@@ -169,13 +175,14 @@ func pruneHashKeyedUpto(
 	batch := database.NewBatch()
 	// batch is rotated below, so close whichever one is current at return.
 	defer func() { _ = batch.Close() }()
-	// Clean up the carve-out left by the previous PruneUpto call.
+
+	// Hash of the block below the one about to be pruned; its hash→number
+	// mapping is deleted together with that block's data.
+	var parentHash *felt.Felt
 	if start > 0 {
-		blockHash, err := core.GetBlockHeaderHashByNumber(database, start-1)
+		var err error
+		parentHash, err = core.GetBlockHeaderHashByNumber(database, start-1)
 		if err != nil {
-			return 0, err
-		}
-		if err := core.DeleteBlockHeaderNumberByHash(batch, blockHash); err != nil {
 			return 0, err
 		}
 	}
@@ -191,14 +198,13 @@ func pruneHashKeyedUpto(
 			return 0, err
 		}
 
-		// Skip endExclusive-1: its hash→number mapping is the carve-out
-		// resolved by StateAtBlockHash(endExclusive.parentHash). Cleaned up
-		// by the next PruneUpto call via the start-1 branch above.
-		if blockNum != endExclusive-1 {
-			if err := core.DeleteBlockHeaderNumberByHash(batch, su.BlockHash); err != nil {
+		// blockNum-1 stops being the block just below the oldest kept one.
+		if parentHash != nil {
+			if err := core.DeleteBlockHeaderNumberByHash(batch, parentHash); err != nil {
 				return 0, err
 			}
 		}
+		parentHash = su.BlockHash
 
 		if err := deleteTransactionHashReverseLookups(database, batch, blockNum); err != nil {
 			return 0, err
